@@ -24,6 +24,17 @@ _ymd2ord = _cal.ymd2ord
 _ord2ymd = _cal.ord2ymd
 
 
+_USE_FIELD_STEPS = False     # measured: nested field-level steps are slower for z3 than independent ord->ymd towers
+
+
+def _lemma_valid(t):
+    """Hand the solver a proven fact about model-produced dates (kernel obligations 'model lemma' of the
+    C15 check: succ/pred/ord2ymd results are valid dates): saves it from re-deriving `day <= days_in_month`
+    through nested ite terms every time the repository code asks."""
+    if _sym(*t):
+        eng().assume(AND(t[2] >= 1, t[2] <= _days_in_month(t[0], t[1]), t[1] >= 1, t[1] <= 12))
+
+
 def _check(c, exc, msg):
     if not c:
         raise exc(msg)
@@ -318,7 +329,15 @@ class date:
             return self._vf_y, self._vf_m, self._vf_dd
         n = self.toordinal() + days
         _check(AND(n >= 1, n <= _MAXORDINAL), OverflowError, "date value out of range")
-        return _ord2ymd(n)
+        if _USE_FIELD_STEPS and isinstance(days, int) and days in (1, -1) and _sym(self._vf_y, self._vf_m, self._vf_dd):
+            # single-day steps (next()/previous() loops) stay on the fields: lemma succ/pred == ord2ymd(ord +- 1)
+            t = (_cal.succ_day if days == 1 else _cal.pred_day)(self._vf_y, self._vf_m, self._vf_dd)
+            _cal.memo_put(t, n)
+            _lemma_valid(t)
+            return t
+        t = _ord2ymd(n)
+        _lemma_valid(t)
+        return t
 
     def __add__(self, o):
         if isinstance(o, timedelta):
